@@ -23,6 +23,7 @@ class C02(Prop):
   sizes = {'quick': 400, 'thorough': 4000}
   assumptions = ['oracle: recomposition from the leaves\' own public API (cost, deriv, bounds, constraints) with offsets summed from the '
                  'leaves\' shapes; constraint lists compared as multisets (order of the list is not part of the property)',
+                 'oracle: every tree constraint Jacobian is compared with central finite differences (h=1e-3) of its own fun along two directions at the permutation flow',
                  'T2 compares constraints as sorted projections (type/has-jac code, value), (code, jac.D), (code, value + jac.D) at the case flow']
 
   def __init__(self):
@@ -190,6 +191,35 @@ class C02(Prop):
     except Exception as e:
       fail('constraint-raises', 'evaluating the tree constraints raised %s: %s (flow: %s)' % (type(e).__name__, str(e)[:160], probes[0][0]))
       return fails
+    # ---- each re-wrapped Jacobian is the gradient of the re-wrapped function: directional finite differences of `fun`
+    # at the permutation flow (all entries >= 1: away from the kinks at zero), then per cell to name the wrong entries
+    dirs = [n_.array([[(((r*n + i)*37) % 11 - 5)/4.0 for i in range(n)] for r in range(R)])]
+    if len(case.get('D', [])) == R:
+      dirs.append(build.arr(case['D']))
+    h = 1e-3
+    try:
+      for ti, c in enumerate(tcons):
+        if 'jac' not in c or fails:
+          continue
+        J = T[ti][2]
+        for Dm in dirs:
+          g = (scalar(c['fun']((Sperm + h*Dm).reshape(-1))) - scalar(c['fun']((Sperm - h*Dm).reshape(-1))))/(2*h)
+          jd = float((J*Dm).sum())
+          if g == g and abs(g - jd) > 1e-6*max(1.0, abs(g), float(n_.abs(J*Dm).sum())):
+            fd = n_.zeros((R, n))
+            for r in range(R):
+              for i in range(n):
+                Em = n_.zeros((R, n)); Em[r, i] = 1.0
+                fd[r, i] = (scalar(c['fun']((Sperm + h*Em).reshape(-1))) - scalar(c['fun']((Sperm - h*Em).reshape(-1))))/(2*h)
+            bad = n_.argwhere(n_.abs(fd - J) > 1e-6*n_.maximum(1.0, n_.abs(fd)))
+            fail('constraint-jac', 'tree constraint #%d (%s, value %s at the flow "%s"): its Jacobian is not the gradient of its fun: jac=%s but finite differences of '
+                 'fun give %s; wrong (row, slot) cells: %s' % (ti, c['type'], T[ti][1][0], probes[0][0], J.round(9).tolist(), fd.round(6).tolist(), bad.tolist()[:8]))
+            break
+    except Exception as e:
+      fail('constraint-raises', 'evaluating a tree constraint near the flow "%s" raised %s: %s' % (probes[0][0], type(e).__name__, str(e)[:160]))
+      return fails
+    if fails and fails[-1]['key']['kind'] == 'constraint-jac':
+      return fails[:3]
     E = []
     for b in blocks:
       off, k, blk, path = b
